@@ -102,6 +102,7 @@ type scriptEnv struct {
 	iters   []pullIter
 	seqs    []func(take int) string
 	finds   []func() int // live Find / FindR closures (mkf / mkfr / nxf)
+	mseqs   []func(n int) string // stored Matches / BackwardMatches values (mkms / mkbms / runm)
 	src     *countingSource
 	shared  bool // other goroutines use the same source at the same time (conc / sconc lines)
 }
@@ -325,6 +326,11 @@ func (e *scriptEnv) execStmt(st string) string {
 			return "na"
 		}
 		return e.seqs[hi](atoi(a[2]))
+	case "runm":
+		if hi >= len(e.mseqs) {
+			return "na"
+		}
+		return e.mseqs[hi](atoi(a[2]))
 	case "nxf":
 		if hi >= len(e.finds) {
 			return "na"
@@ -575,6 +581,40 @@ func (e *scriptEnv) execStmt(st string) string {
 				return pdList(out) + "$"
 			}
 			return pdList(out)
+		})
+		return "ok"
+	case "mkms", "mkbms": // v3: keep the iter.Seq value returned by Matches / BackwardMatches
+		if h.v != 3 {
+			return "na"
+		}
+		pat := patOf(a[2])
+		var sq func(yield func(int) bool)
+		if op == "mkbms" {
+			fs, ok := h.s3.(sq3.FiniteSequence)
+			if !ok {
+				return "na"
+			}
+			sq = sq3.BackwardMatches(fs, pat)
+		} else {
+			sq = sq3.Matches(h.s3, pat)
+		}
+		e.mseqs = append(e.mseqs, func(n int) string {
+			if n <= 0 {
+				return "-"
+			}
+			var out []int
+			ended := true
+			for p := range sq {
+				out = append(out, p)
+				if len(out) >= n {
+					ended = false
+					break
+				}
+			}
+			if ended {
+				return intsString(out) + "$"
+			}
+			return intsString(out)
 		})
 		return "ok"
 	case "mkseqb": // v3: keep the iter.Seq2 value returned by Backward() so that it can be re-run
